@@ -2206,7 +2206,11 @@ def lex_tokens(line):
     match = RE_ERROR.match(line.contents)
     if match is not None:
         message = match.group(1)
-        message = decode_escapes(message)
+        try:
+            message = decode_escapes(message)
+        except UnicodeDecodeError:
+            # the directive still has to fail as an assembler error: keep the message as written
+            pass
         tokens = ['error', message]
         return LineTokens(line, tokens)
 
@@ -2214,7 +2218,10 @@ def lex_tokens(line):
     match = RE_STRING.match(line.contents)
     if match is not None:
         value = match.group(1)
-        value = decode_escapes(value)
+        try:
+            value = decode_escapes(value)
+        except UnicodeDecodeError:
+            raise AssemblerError('invalid escape sequence in string: "{}"'.format(value), line)
         tokens = ['string', value]
         return LineTokens(line, tokens)
 
